@@ -111,6 +111,8 @@ class Result:
 
 def call(fn, *args, cpu=60, mem_gb=6, wall=None, quiet=True):
     """run fn(*args) in a forked child; returns Result."""
+    from . import runner
+    runner.beat()
     scratch = tempfile.mkdtemp(prefix="c_", dir=base_dir())
     r, w = os.pipe()
     sys.stdout.flush()
@@ -261,6 +263,8 @@ def local(fn, *args, timeout=20, reset=True):
     """run fn(*args) in this process with the tool's mutable module state reset first
     (reset=False keeps whatever earlier calls left behind: used by the history checks)"""
     local_init()
+    from . import runner
+    runner.beat()
     if reset:
         reset_globals()
     old = signal.signal(signal.SIGALRM, _on_alarm)
